@@ -378,12 +378,12 @@ def handle (op : String) (args impl : List String) : Option String :=
       else none
     | _ => none
   | some (ctx, e, res) =>
-    -- bounds of dated ranges moved by more than a year (open finding `dated-shift-over-a-year`, listed under
+    -- day offsets of dated ranges beyond what chrono can represent (open finding `dated-offset-beyond-calendar`, listed under
     -- C01) also show as iterator-vs-schedule failures: attribute them to that class
     (fun (v : Option String) => v.map (fun v =>
       if v.startsWith "fail" && (v.splitOn "class=").length == 1 && OH.Spec.exprBigShift e then
         match v.splitOn " " with
-        | f :: c :: rest => joinSp (f :: c :: "class=dated-shift-over-a-year" :: rest)
+        | f :: c :: rest => joinSp (f :: c :: "class=dated-offset-beyond-calendar" :: rest)
         | _ => v
       else v)) <|
     if res == ["skip-unrepresentable"] then some "ok skip-unrepresentable" else
